@@ -110,7 +110,7 @@ class SeismicFileConverter(object):
         if header_detection != 'strip':
             for header_array in header_info.headers_dict.values():
                 # Pad to 512-bytes for page blobs
-                out_filehandle.write(header_array.tobytes() + bytes(512-len(header_array.tobytes()) % 512))
+                out_filehandle.write(header_array.tobytes() + bytes(-len(header_array.tobytes()) % 512))
 
     @staticmethod
     def write_hash(hash, out_filehandle):
@@ -443,7 +443,7 @@ class NumpyConverter(object):
             # Header arrays are stored as 32-bit integers, whatever integer type the caller supplied
             header_bytes = header_array.astype(np.int32).tobytes()
             # Pad to 512-bytes for page blobs
-            out_filehandle.write(header_bytes + bytes(512-len(header_bytes) % 512))
+            out_filehandle.write(header_bytes + bytes(-len(header_bytes) % 512))
 
     @staticmethod
     def write_hash(hash, out_filehandle):
